@@ -1,6 +1,6 @@
 """C14 - JSON snapshots are canonical and lossless."""
 import json, random
-import core, findings
+import core, findings, docs
 from core import World, hx, Line, parse_fs
 from gen import Gen, mode_line, cfg_line
 from suites import run_suite, parse_snap
@@ -68,9 +68,28 @@ def make_world(g, tag):
         # \u003c, \u003e, \u0026: the textual forms of "the same document" use that encoding too
         pres = [(t.replace('<', '\\u003c').replace('>', '\\u003e').replace('&', '\\u0026'), f) for t, f in pres]
     idx = []
+    nested = []     # (op index, test name, value) of calls made from inside a matcher of another call
+    share = kind == 'json' and r.random() < 0.3
+    w.add(cfg_line(2, 'snaps', 'f' if share else 'nested', None, 'none', opt))
     for i, (txt, form) in enumerate(pres, 1):
         w.add('begin %d %s' % (i, hx(b'TestJ%d' % i)))
-        idx.append(w.add('%s 1 %d %s %s' % (kind, i, form, hx(txt))))
+        ms = []
+        if r.random() < (0.6 if form == 'v' else 0.15):
+            # a user-defined matcher that itself records a snapshot of ANOTHER Go value (a helper asserting on
+            # some other object) while this call is between validation and formatting: a re-entrant call
+            nv = r.choice([{'nested': i}, {'nested': i, 'pad': 'p' * r.randint(0, 60)}, [i, 'nested'], gen_value(r, 1, True)])
+            if not isinstance(nv, (dict, list)):
+                nv = {'nested': nv, 'i': i}
+            w.add('begin %d %s' % (100 + i, hx(b'TestNested%d' % i)))
+            nested.append((w.add('nest json 2 %d v %s' % (100 + i, hx(json.dumps(nv)))), b'TestNested%d' % i, nv))
+            ms.append(docs.user_matcher(r.random() < 0.5, r.random() < 0.3, True))
+        elif r.random() < 0.4:
+            # inspecting user-defined matchers leave the document alone: the stored text is the same with
+            # and without them, and the caller's bytes (indentation, final newline) stay as they were
+            ms = [docs.user_matcher(r.random() < 0.5, r.random() < 0.3) for _ in range(r.randint(1, 2))]
+        idx.append(w.add('%s 1 %d %s %s%s' % (kind, i, form, hx(txt), ''.join(' ' + m for m in ms))))
+        if ms and ms[0].endswith('x'):
+            w.add('end %d' % (100 + i))
         w.add('end %d' % i)
     # malformed input: one failure, nothing written
     before = w.add('fsdump')
@@ -98,7 +117,7 @@ def make_world(g, tag):
             ents = parse_snap(fs[p[0]]) if p else []
             if ents is None:
                 return 'file not well formed'
-            texts = [b for _, b in ents]
+            texts = [b for n, b in ents if n.startswith(b'TestJ')]
         else:
             texts = [fs[x] for x in sorted(fs) if b'/TestJ' in x]
         if len(texts) != len(pres):
@@ -113,6 +132,18 @@ def make_world(g, tag):
             return 'stored text parses to a different value'
         if texts[0].endswith(b'\n'):
             return 'stored text keeps the trailing newline'
+        # the documents recorded by the nested calls are theirs
+        p = [x for x in fs if x.endswith(b'/f.snap' if share else b'/nested.snap')]
+        ents = dict(parse_snap(fs[p[0]]) or []) if p else {}
+        for _, name, nv in nested:
+            body = ents.get(name + b' - 1')
+            if body is None:
+                return 'the call made from inside a matcher (%s) recorded nothing' % name.decode()
+            try:
+                if json.loads(body.decode()) != nv:
+                    return 'the call made from inside a matcher (%s) recorded a different document' % name.decode()
+            except Exception as e:
+                return 'the call made from inside a matcher recorded invalid JSON: %s' % e
         return None
     w.add('fsdump', ('canonical-and-lossless', oracle))
     return w
